@@ -894,7 +894,7 @@ inline bool lines_S(Rng& r, uint64_t idx)
       uint64_t const kind = r.below(3);
       int const x = static_cast<int>(r.below(100000));
       int const y = static_cast<int>(r.below(1000));
-      std::string const dirs = r.chance(1, 3) ? "" : (r.chance(1, 2) ? "src/" : "/abs/dir/sub/");
+      std::string const dirs = r.pick({"", "src/", "/abs/dir/sub/", "/build/ws:debug/src/", "C:/proj/src/", "a:b/"}); // colons inside the path too
       std::string const fname = "file" + std::to_string(r.below(5)) + ".cpp";
       int const line = static_cast<int>(r.range(1, 99999));
       std::string const func = "func" + std::to_string(r.below(4));
@@ -927,10 +927,52 @@ inline bool lines_S(Rng& r, uint64_t idx)
     }
   }
   log_lines(static_cast<uint32_t>(r.range(5, 40)));
+  // ---- two loggers with the SAME pattern (time printed with a spec) but different timestamp patterns and zones of
+  // the same instant: each line carries its own logger's rendering of the statement's timestamp
+  std::vector<uint32_t> tsink_ids;
+  std::vector<Lg*> time_loggers;
+  {
+    char const* const tspat[2] = {"%Y-%m-%d", "%H:%M:%S"};
+    for (int k = 0; k < 2; ++k)
+    {
+      uint32_t id = World::next_sink_id()++;
+      auto tsink = std::static_pointer_cast<RecSink>(Fe::create_or_get_sink<RecSink>(w.tag + "_time" + std::to_string(k), id));
+      tsink->keep_stmt.store(true);
+      tsink_ids.push_back(id);
+      quill::PatternFormatterOptions tp{"T|%(time:>12)|%(message)", tspat[k], quill::Timezone::GmtTime, false};
+      Lg* tl = Fe::create_or_get_logger(w.tag + "_tl" + std::to_string(k), tsink, tp, quill::ClockSourceType::System);
+      time_loggers.push_back(tl);
+      for (int i = 0; i < 2 && !run.failed; ++i)
+      {
+        if (a.w->parked()) { run.poll(); run.resume(a); }
+        if (a.w->parked()) continue;
+        int const v = static_cast<int>(r.below(1000));
+        run.run_on(a, [tl, v] { LOG_INFO(tl, "t {}", v); }, "log-time");
+        if (r.chance(1, 2)) run.poll();
+      }
+    }
+  }
   bool ok = !run.failed && run.drain("lines_S");
   if (ok)
   {
     auto evs = recorder().snapshot();
+    for (int k = 0; k < 2 && ok; ++k)
+      for (auto const& e : evs)
+      {
+        if (e.kind != 'w' || e.sink != tsink_ids[static_cast<size_t>(k)]) continue;
+        time_t const secs = static_cast<time_t>(e.ts / 1000000000ull);
+        tm g{};
+        gmtime_r(&secs, &g);
+        char buf[64];
+        strftime(buf, sizeof buf, k == 0 ? "%Y-%m-%d" : "%H:%M:%S", &g);
+        std::string const want = "T|" + fmtquill::format("{:>12}", buf) + "|" + e.msg + "\n";
+        if (e.stmt != want)
+        {
+          violation("C12", "time-attribute-not-rendered-with-the-loggers-own-timestamp-pattern", J{}.num("logger", k).str("got", e.stmt.substr(0, 120)).str("want", want.substr(0, 120)).str("scenario", "lines_S"));
+          ok = false;
+          break;
+        }
+      }
     {
       std::vector<std::string> mgot;
       for (auto const& e : evs)
@@ -991,6 +1033,7 @@ inline bool lines_S(Rng& r, uint64_t idx)
     run.finish_workers();
     run.poll();
   }
+  for (Lg* tl : time_loggers) Fe::remove_logger(tl);
   stat_add("lines_scenarios");
   stat_add("lines_statements", static_cast<long long>(sent.size() + meta_want.size()));
   stat_sig("lines_sigs", std::to_string(run.sig_hash));
